@@ -706,6 +706,8 @@ class Summariser:
                 and not v.func.id[1:2].isupper() and st.depth < self.inline_depth:
             # a private package-level procedure called for its effects: its body runs in place (loops included), one continuation per exit
             multi = self._multi_inline_fi(self.model.functions[v.func.id], v, st, static=True, bound=False, procedure=True)
+            if not multi:
+                multi = self.multi_inline(v, st)          # no loop, but several exits (guards, handlers)
             if multi:
                 return [(s_, ("normal",)) for s_, _ in multi]
         self.expr(node.value, st)
